@@ -355,6 +355,11 @@ IDIOMS = [
     "Where(ds, lambda {x}: (lambda {s}, {n}: Count(Where({s}, lambda {x2}: {x2} > {n})) > 0)(Select({x}.jets, lambda {x3}: {x3}.pt), {x}.x))",
     "Select(Select(ds, lambda {x}: (lambda {s}: ({s}, Select({s}, lambda {x2}: {x2}.pt)))({x}.jets)), lambda {x3}: Count({x3}[0]) + Count({x3}[1]))",
     "SelectMany(ds, lambda {x}: (lambda {s}: SelectMany({s}, lambda {x2}: Select({s}, lambda {x3}: {x2}.pt - {x3}.pt)))(Where({x}.jets, lambda {x4}: {x4}.eta > -2)))",
+    # a called lambda inside a called lambda, the inner one re-using a name the outer argument mentions
+    "Select(ds, lambda {x}: (lambda {s}: (lambda {x2}: First(Select({s}, lambda {x3}: ({x3}.pt, {x3}.eta)))[0] + {x2})(1))({x}.jets))",
+    "Select(ds, lambda {x}: (lambda {s}: (lambda {x2}: Count(Where(Select({s}, lambda {x3}: {x3}.pt), lambda {x4}: {x4} > {x2})))(1))({x}.jets))",
+    "Select(ds, lambda {x}: (lambda {s}: (lambda {x2}: Count(Where(Select({s}, lambda {x3}: {x3}.pt), lambda {x4}: {x4} > {x2})))({x}.w))({x}.jets))",
+    "Select(ds, lambda {x}: (lambda {s}: (lambda {x2}: First(Select({s}, lambda {x3}: ({x3}.pt, {x2})))[0] + {x2})({x}.x))(Where({x}.jets, lambda {x4}: {x4}.pt >= 0)))",
     # guarded filters: the later predicate is only defined on what the earlier one lets through
     "Where(Where(ds, lambda {x}: Count(Where({x}.jets, lambda {x2}: {x2}.pt >= 0)) > 0), lambda {x3}: First({x3}.jets).pt > 1)",
     "Where(Where(ds, lambda {x}: Count({x}.jets) > 0), lambda {x2}: First({x2}.jets).eta < 1)",
